@@ -27,7 +27,7 @@ import (
 
 func init() {
 	mon.RegisterCfg("C08", mon.Config{
-		Rule: "generated gtab.Info / gdef.Table / coverage / classdef values (gen/otl: every encodable lookup type and format, alphabets of 5 … 65536 glyphs, subtables of a few bytes … 58 KiB, lookup lists of 0 … 300 lookups and up to several 100 KiB with the largest lookup first / in the middle / last, totals swept +-8 bytes around the 16-bit offset limits, script lists over every script x language tag of the library's tables, feature lists up to the 16-bit limit) are encoded by the library, decoded again and compared (nil = empty); the emitted bytes are walked by the independent structural walker otlwalk (offsets inside the table, extents as implied by counts, ranges tile the table without gap or partial overlap, extension records consistent, coverage sorted with indices 0..n-1, no smaller alternative format); every subtable's declared size is compared with its emitted size (hook); coverage/classdef are additionally decoded by otlwalk and their sizes recomputed independently; a catalogue of unrepresentable structures must be refused with a panic or read back equal; further strata: counts (one record - replacement sequence, alternate set, ligature component list, ligature set, rule input / backtrack / lookahead sequence, action list, rule set, coverage array - with 256 … 2000 entries, and with more than 32767 entries under the catalogue rule; 13 … 1800 mark classes), rule-set (one rule set whose last rule starts at 62 KiB … 64 KiB + 24), value records that consist of YAdvance or of device offsets alone or have all eight fields set (also as the only record shape of a subtable), classdef tables whose glyph span is 0xFFFD … 0x10000 and tables with explicit class-0 entries (the emitted format must be the one that holds the mapping in fewer bytes), gdef-shapes (glyph class values beyond 4, 100 … 1500 mark glyph sets, sets of up to 65536 glyphs with set offsets beyond 64 KiB, sub-table offsets swept +-8 around 64 KiB), scripts (more than 100 scripts, scripts without a default language system, one script with hundreds of language systems, script list + feature list ending +-8 around 64 KiB). distinct = distinct emitted tables (hash); stratum ximage-kern: a whole font is written whose kern feature consists of pair adjustment subtables of both formats (plus decoy lookups/features/scripts, lists beyond 64 KiB through extension records) and golang.org/x/image/font/sfnt - an independent reader of script list, feature list, lookup list, extension records, coverage and class definition tables - must find, for every sampled glyph pair (glyph 0 and the last glyph of the font always among them), the kerning the structure holds; the class definition tables of a third of the class subtables are dense blocks (format 1), of another third long runs (format 2)",
+		Rule: "generated gtab.Info / gdef.Table / coverage / classdef values (gen/otl: every encodable lookup type and format, alphabets of 5 … 65536 glyphs, subtables of a few bytes … 58 KiB, lookup lists of 0 … 300 lookups and up to several 100 KiB with the largest lookup first / in the middle / last, totals swept +-8 bytes around the 16-bit offset limits, script lists over every script x language tag of the library's tables, feature lists up to the 16-bit limit) are encoded by the library, decoded again and compared (nil = empty); the emitted bytes are walked by the independent structural walker otlwalk (offsets inside the table, extents as implied by counts, ranges tile the table without gap or partial overlap, extension records consistent, coverage sorted with indices 0..n-1, no smaller alternative format); every subtable's declared size is compared with its emitted size (hook); coverage/classdef are additionally decoded by otlwalk and their sizes recomputed independently; a catalogue of unrepresentable structures must be refused with a panic or read back equal; further strata: counts (one record - replacement sequence, alternate set, ligature component list, ligature set, rule input / backtrack / lookahead sequence, action list, rule set, coverage array - with 256 … 2000 entries, and with more than 32767 entries under the catalogue rule; 13 … 1800 mark classes), rule-set (one rule set whose last rule starts at 62 KiB … 64 KiB + 24), value records that consist of YAdvance or of device offsets alone or have all eight fields set (also as the only record shape of a subtable), classdef tables whose glyph span is 0xFFFD … 0x10000 and tables with explicit class-0 entries (the emitted format must be the one that holds the mapping in fewer bytes), gdef-shapes (glyph class values beyond 4, 100 … 1500 mark glyph sets, sets of up to 65536 glyphs with set offsets beyond 64 KiB, sub-table offsets swept +-8 around 64 KiB), scripts (more than 100 scripts, scripts without a default language system, one script with hundreds of language systems, script list + feature list ending +-8 around 64 KiB). distinct = distinct emitted tables (hash); stratum ximage-kern: a whole font is written whose kern feature consists of pair adjustment subtables of both formats (plus decoy lookups/features/scripts, lists beyond 64 KiB through extension records) and golang.org/x/image/font/sfnt - an independent reader of script list, feature list, lookup list, extension records, coverage and class definition tables - must find, for every sampled glyph pair (glyph 0 and the last glyph of the font always among them), the kerning the structure holds; the class definition tables of a third of the class subtables are dense blocks (format 1), of another third long runs (format 2) Further stratum straddle-64k: three-piece subtables of eight kinds whose size sweeps across 64 KiB; output the independent walker finds well formed must be read back equal.",
 		Assumptions: []string{
 			"well-formed content = what the binary format can express (uniform nil-ness of value records per subtable position, one array entry per covered glyph, rule-set arrays not longer than the class count, mark classes below the class count, MarkFilteringSet 0 unless flagged, anchors (0,0) = absent); GPOS type 5 has no encoder and is excluded",
 			"value-record device offsets are opaque 16-bit fields for the library; otlwalk does not follow them",
